@@ -26,6 +26,10 @@ type c05Cell struct {
 	Val      string `json:"value"`
 	OldVal   string `json:"old_value"`
 	Ext      string `json:"ext"`
+	// Pre: how the pre-existing snapshot is presented to the run: "" as the library wrote it; "crlf": the multi-entry file
+	// converted to CRLF line ends (a checkout with core.autocrlf); "symlink": the standalone file is a symbolic link to
+	// the real file (runfiles trees, shared golden directories). Neither changes what exists or what it holds.
+	Pre string `json:"preexisting_form,omitempty"`
 }
 
 const unsetEnv = "<unset>"
@@ -75,6 +79,12 @@ func allC05Cells(seed int) []c05Cell {
 									c.OldVal = c.Val + "x"
 								}
 								c.Ext = []string{"", "", ".txt"}[(i+seed)%3]
+								switch {
+								case (api == "snap" || api == "json" || api == "yaml") && (i+seed)%4 == 1:
+									c.Pre = "crlf"
+								case (api == "ssnap" || api == "sjson") && state != "missing" && (i+seed)%3 == 1:
+									c.Pre = "symlink"
+								}
 								cells = append(cells, c)
 							}
 						}
@@ -182,6 +192,34 @@ func checkC05(c c05Cell) error {
 	if _, out, err := runProgram(RunOpts{Pkg: "."}, prep); err != nil {
 		return fmt.Errorf("preparation run: %v (%s)", err, clip(out))
 	}
+	multiRel := filepath.Join("snaps", "f.snap"+c.Ext)
+	cutMulti := c.API == "snap" || c.API == "json" || c.API == "yaml"
+	cutRel := multiRel
+	if !cutMulti {
+		ext := c.Ext
+		if ext == "" && c.API == "sjson" {
+			ext = ".json"
+		}
+		cutRel = filepath.Join("snaps", "TestAlpha_1.snap"+ext)
+	}
+	realRel := ""
+	switch c.Pre {
+	case "crlf":
+		b, err := os.ReadFile(filepath.Join(root, multiRel))
+		if err != nil || strings.Contains(string(b), "\r") {
+			return fmt.Errorf("harness: cannot convert %q to CRLF: %v", multiRel, err)
+		}
+		os.WriteFile(filepath.Join(root, multiRel), []byte(strings.ReplaceAll(string(b), "\n", "\r\n")), 0o644)
+	case "symlink":
+		realRel = filepath.Join("real", filepath.Base(cutRel))
+		os.MkdirAll(filepath.Join(root, "real"), 0o755)
+		if err := os.Rename(filepath.Join(root, cutRel), filepath.Join(root, realRel)); err != nil {
+			return fmt.Errorf("harness: %v", err)
+		}
+		if err := os.Symlink(filepath.Join(root, realRel), filepath.Join(root, cutRel)); err != nil {
+			return fmt.Errorf("harness: %v", err)
+		}
+	}
 	ageDir(root)
 	d0 := snapDir(root)
 
@@ -201,16 +239,6 @@ func checkC05(c c05Cell) error {
 			return fmt.Errorf("on CI nothing may be created, modified or deleted, but: %s", d)
 		}
 		return nil
-	}
-	multiRel := filepath.Join("snaps", "f.snap"+c.Ext)
-	cutMulti := c.API == "snap" || c.API == "json" || c.API == "yaml"
-	cutRel := multiRel
-	if !cutMulti {
-		ext := c.Ext
-		if ext == "" && c.API == "sjson" {
-			ext = ".json"
-		}
-		cutRel = filepath.Join("snaps", "TestAlpha_1.snap"+ext)
 	}
 	staleFiles := map[string]bool{}
 	if c.Obsolete {
@@ -236,8 +264,9 @@ func checkC05(c c05Cell) error {
 			if !exists {
 				return fmt.Errorf("addressed file %q removed", p)
 			}
-			pre, _ := refParse(b.Data)
-			post, perr := refParse(a.Data)
+			// line ends are not part of what a snapshot holds: every reader drops a CR in front of the LF
+			pre, _ := refParse(strings.ReplaceAll(b.Data, "\r\n", "\n"))
+			post, perr := refParse(strings.ReplaceAll(a.Data, "\r\n", "\n"))
 			if perr != nil {
 				return fmt.Errorf("file %q not well formed after the run: %v", p, perr)
 			}
@@ -286,7 +315,7 @@ func checkC05(c c05Cell) error {
 			if !touched && (a.Data != b.Data || !a.Mtime.Equal(b.Mtime)) {
 				return fmt.Errorf("file %q: nothing in this mode may write it, but it was written", p)
 			}
-		case p == cutRel:
+		case p == cutRel || (realRel != "" && p == realRel):
 			switch e.outcome {
 			case "updated":
 				if a.Data == b.Data {
@@ -356,6 +385,9 @@ func classifyC05(c c05Cell) ([]string, bool) {
 		cls = append(cls, "ci")
 	}
 	cls = append(cls, "outcome_"+e.outcome, "api_"+c.API)
+	if c.Pre != "" {
+		cls = append(cls, "preexisting_"+c.Pre)
+	}
 	return cls, nt
 }
 
